@@ -188,6 +188,17 @@ type Config struct {
 
 func P[T any](v T) *T { return &v }
 
+// FixPkg is one package of the fixture universe (DESIGN 2.4): identical self-identifying symbols in each.
+type FixPkg struct{ Path, Name string }
+
+// FixturePkgs: same last element twice (pa), last element illegal as identifier (x-y.v2), last element equal to a
+// package the template imports (fmt, os), and two packages of other modules whose import paths sort before and
+// after everything the template itself imports (aaa.test/lib, zzz.test/lib; same package name).
+var FixturePkgs = []FixPkg{
+	{"fixt/pa", "pa"}, {"fixt/pb", "pb"}, {"fixt/deep/pa", "pa"}, {"fixt/x-y.v2", "xy"}, {"fixt/fmt", "fmt"}, {"fixt/os", "os"},
+	{"aaa.test/lib", "lib"}, {"zzz.test/lib", "lib"},
+}
+
 // File is one input file of a run.
 type File struct{ Name, Content string }
 
